@@ -8,11 +8,13 @@ of editing ops.  Every op is executed on REAL pyiron_workflow objects; after eve
 ordered connection list of every channel is read back.  The observation is delta-coded to
 keep the Coq literals small:
 
-  obs = [per op: [outcome, labels, delta, flag]]
+  obs = [per op: [outcome, labels, tree, delta, flag]]
     outcome : 0 ok | 1 TypeError | 2 ChannelConnectionError | 3 ValueError | 4 AttributeError |
               5 KeyError | 6 ConnectionCopyError | 7 ValueCopyError | 8 CircularDataFlowError |
               9 AmbiguousOutputError | "<class name>" for anything else
     labels  : [] if no node label changed, else the rank (a=0, b=1...) of every node's label
+    tree    : [] if no parent / children list changed, else [[parent of every node: 0 none, w+1],
+              [children of every workflow, in `children` order]]
     delta   : [[cid, p1, p2, ...]] for every channel whose list changed (cid = position of the channel
               in the universe: nodes in order, each inputs, outputs, run, accumulate_and_run, ran, failed);
               a partner p is 32 * rank(owner label) + index(channel label in LABELS), i.e. the pair
@@ -35,7 +37,7 @@ from pyiron_workflow.channels import NOT_DATA
 PROP = "C12"
 IMPORTS = "Base Chan"
 RULE = ("histories of 8-60 editing ops (connect by method/assignment/call keyword/>>/<<, disconnect at "
-        "channel/panel/node level, copy_connections, copy_io, remove/add/replace child, wire dag, run, pull) "
+        "channel/panel/node level, copy_connections, copy_io, remove child by node/label, parent = None, parent = another composite, add/replace child, wire dag, run, pull) "
         "over 3-7 function nodes of 7 kinds (typed int/str/bool/int|str/untyped, strict and loose inputs, one "
         "two-output kind) in 1-2 workflows or parentless; operands biased to conjugate pairs and to existing "
         "connections, ~15% malformed; non-trivial = >=3 connections alive at some point and >=1 refused or "
@@ -210,6 +212,12 @@ class Universe:
             out.append(ord(s[1]) - 97 if len(s) == 2 and s[0] == "n" and "a" <= s[1] <= "z" else -1)
         return out
 
+    def tree(self):
+        wfi = {id(w): j for j, w in enumerate(self.wfs)}
+        parents = [0 if n.parent is None else wfi.get(id(n.parent), -2) + 1 for n in self.nodes]
+        kids = [[self.node_idx.get(id(c), -1) for c in w.children.values()] for w in self.wfs]
+        return [parents, kids]
+
     def snapshot(self):
         """(lists of partner codes per cid, number of foreign / ill-typed partners)"""
         from pyiron_workflow.type_hinting import type_hint_is_as_or_more_specific_than as more_specific
@@ -269,7 +277,14 @@ class Universe:
         elif k == "remove":
             wf[op[1]].remove_child(nd[op[2]])
         elif k == "add":
-            wf[op[1]].add_child(nd[op[2]])
+            if len(op) > 3 and op[3]:
+                setattr(wf[op[1]], nd[op[2]].label, nd[op[2]])      # Composite.__setattr__ -> add_child(label=key)
+            else:
+                wf[op[1]].add_child(nd[op[2]])
+        elif k == "remove_label":
+            wf[op[1]].remove_child(nd[op[2]].label)
+        elif k == "set_parent":
+            nd[op[1]].parent = None if op[2] is None or op[2] < 0 else wf[op[2]]
         elif k == "replace":
             wf[op[1]].replace_child(nd[op[2]], nd[op[3]])
         elif k == "wire_dag":
@@ -347,24 +362,26 @@ def run_impl(case):
     u = Universe(case)
     prev, _ = u.snapshot()
     prev_labels = u.labels()
+    prev_tree = u.tree()
     obs, rbs = [], []
     dead = False
     for op in case["ops"]:
         if dead:                       # the universe is unusable after a call that never returned
-            obs.append(["skipped", [], [], 0])
+            obs.append(["skipped", [], [], [], 0])
             rbs.append(None)
             continue
         code, rb = u.step(op)
         rbs.append(rb)
         if code == "Timeout":
             dead = True
-            obs.append([code, [], [], 0])
+            obs.append([code, [], [], [], 0])
             continue
         cur, bad = u.snapshot()
         labels = u.labels()
+        tree = u.tree()
         delta = [[c] + cur[c] for c in range(len(cur)) if cur[c] != prev[c]]
-        obs.append([code, [] if labels == prev_labels else labels, delta, bad])
-        prev, prev_labels = cur, labels
+        obs.append([code, [] if labels == prev_labels else labels, [] if tree == prev_tree else tree, delta, bad])
+        prev, prev_labels, prev_tree = cur, labels, tree
     _RB[id(case)] = (_case_key(case), rbs)
     return obs
 
@@ -433,6 +450,10 @@ def op_coq(op, rb):
         return f"OWfDisconnectRun {cn(op[1])}"
     if k == "pull":
         return f"OPull {cn(op[1])} {_cln(rb or [])}"
+    if k == "remove_label":
+        return f"ORemoveLabel {cn(op[1])} {cn(op[2])}"
+    if k == "set_parent":
+        return f"OSetParent {cn(op[1])} " + ("None" if op[2] is None or op[2] < 0 else f"(Some {cn(op[2])})")
     raise ValueError(op)
 
 
@@ -474,14 +495,18 @@ def oracle(case, obs):
     by_node_label = {(s[0], s[1]): c for c, s in enumerate(st)}
     cur = [[] for _ in st]
     labels = list(range(nn))
+    parents = [0 if (w is None or w < 0) else w + 1 for (_k, _l, w) in case["nodes"]]
     if not isinstance(obs, list) or len(obs) != len(case["ops"]):
         return f"shape: {len(case['ops'])} ops but observation {str(obs)[:80]}"
     for t, (op, ob) in enumerate(zip(case["ops"], obs)):
-        code, newlab, delta, bad = ob
+        code, newlab, newtree, delta, bad = ob
         prev = [list(r) for r in cur]
         prev_labels = list(labels)
+        prev_parents = list(parents)
         if newlab:
             labels = list(newlab)
+        if newtree:
+            parents = list(newtree[0])
         for row in delta:
             cur[row[0]] = list(row[1:])
         where = f"after op {t} {op[0]}"
@@ -514,7 +539,7 @@ def oracle(case, obs):
                 if code_of(a) not in cur[b]:
                     return f"not-mutual: {where}: channel {a} lists channel {b} but {b} does not list {a}"
         k = op[0]
-        changed = cur != prev or labels != prev_labels
+        changed = cur != prev or labels != prev_labels or parents != prev_parents
         if code != 0 and _is_single_connect(op) and changed:
             return f"refused-changed: {where}: the refused connection ({EXC_INV.get(code, code)}) changed the store"
         if k == "call" and len(op[2]) == 1 and code in (1, 2, 4, 9) and changed:   # C12_refused_call_noop
@@ -558,15 +583,19 @@ def oracle(case, obs):
             mine = chans_of[op[1]]
             if k == "node_disconnect" and all(not prev[c] for c in mine) and changed:
                 return f"disconnect-effect: {where}: disconnecting an unconnected node changed the store"
+        gone = [n for n in range(nn) if prev_parents[n] > 0 and parents[n] != prev_parents[n]]
         if code == 0 and k in ("remove", "node_disconnect", "replace"):
-            n = op[2] if k in ("remove", "replace") else op[1]
+            gone.append(op[2] if k in ("remove", "replace") else op[1])
+        for n in gone:      # by ANY route: whoever left its composite (or was disconnected) is unreferenced
             for c in chans_of[n]:
                 if cur[c]:
-                    return f"still-connected: {where}: channel {c} of the removed/disconnected node still lists {cur[c]}"
+                    return (f"still-connected: {where}: channel {c} of node {n}, which left its composite / was "
+                            f"disconnected, still lists {cur[c]}")
             for a, row in enumerate(cur):
                 for p in row:
                     if p // 32 == labels[n]:
-                        return f"dangling: {where}: channel {a} still points at the removed/disconnected node"
+                        return (f"dangling: {where}: channel {a} still points at node {n}, which left its "
+                                f"composite / was disconnected")
     return None
 
 
@@ -582,7 +611,7 @@ def nontrivial(case, obs):
     for op, ob in zip(case["ops"], obs):
         if not isinstance(ob, list):
             return False
-        for row in ob[2]:
+        for row in ob[3]:
             if len(row) - 1 < sizes.get(row[0], 0):
                 removed += 1
             sizes[row[0]] = len(row) - 1
@@ -628,7 +657,7 @@ def distribution(results):
 # ---- generation (operands are chosen looking at the real state) ------------------------------
 WEIGHTS = [("connect", 16), ("assign", 9), ("set_inputs", 5), ("call", 4), ("rshift", 6), ("lshift", 5),
            ("disconnect", 9), ("disconnect_all", 4), ("copy_conns", 7), ("panel_disconnect", 3),
-           ("node_disconnect", 3), ("copy_io", 6), ("remove", 3), ("add", 4), ("replace", 5),
+           ("node_disconnect", 3), ("copy_io", 6), ("remove", 3), ("remove_label", 2), ("set_parent", 5), ("add", 4), ("replace", 5),
            ("wire_dag", 2), ("run_wf", 3), ("wf_disconnect_run", 1), ("pull", 5)]
 
 
@@ -777,8 +806,16 @@ def _gen_op(rng, u):
     if k == "remove":
         w = rng.randrange(nwf)
         return [k, w, rng.choice(kids[w]) if kids[w] and rng.random() < 0.85 else rng.randrange(nn)]
+    if k == "remove_label":
+        w = rng.randrange(nwf)
+        return [k, w, rng.choice(kids[w]) if kids[w] and rng.random() < 0.8 else rng.randrange(nn)]
+    if k == "set_parent":
+        owned = [i for i, n in enumerate(u.nodes) if n.parent is not None]
+        n = rng.choice(owned) if owned and rng.random() < 0.8 else rng.randrange(nn)
+        return [k, n, rng.choice([-1] + list(range(nwf)) * 2)]
     if k == "add":
-        return [k, rng.randrange(nwf), rng.choice(orphans) if orphans and rng.random() < 0.85 else rng.randrange(nn)]
+        return [k, rng.randrange(nwf), rng.choice(orphans) if orphans and rng.random() < 0.85 else rng.randrange(nn),
+                rng.random() < 0.3]
     if k == "replace":
         w = rng.randrange(nwf)
         n = rng.choice(kids[w]) if kids[w] and rng.random() < 0.9 else rng.randrange(nn)
